@@ -22,3 +22,15 @@ def hdr_unit(label, hdr, defs=(), cflags=()):
 
 def src_unit(rel, label=None, defs=(), cflags=()):
     return UnitSpec(label or rel, "src", rel, defines=defs, cflags=cflags)
+
+
+# al/os.h as a platform without memmem / memrchr / reallocarray / explicit_bzero compiles it: the repository's own
+# replacements become code to analyse.  glibc declares these names, so the replacements are renamed for the parse.
+OS_PORTABLE = "al/os.h"
+OS_PORTABLE_PREFIX = "lcbfb_"
+
+
+def os_portable_unit():
+    names = ("memmem", "memrchr", "reallocarray", "explicit_bzero")
+    pre = "".join("#define %s %s%s\n" % (n, OS_PORTABLE_PREFIX, n) for n in names)
+    return UnitSpec(OS_PORTABLE, "hdr", "al/os.h", defines=tuple("!HAVE_" + n.upper() for n in names), pre_text=pre)
